@@ -88,13 +88,26 @@ Section Defs.
              (negb (N.eqb (mt_sq m) 0)) false.
 
   (* the object / oneof an inline field defines is visited like a nested declaration (an inline enum sets
-     nothing) *)
+     nothing); an inline schema whose fields are again inline schemas / arrays / maps (Entity.il_tree,
+     Entity.tfield) contributes one declaration per inline object / oneof at every depth *)
+  Definition inl_decl (t : target) (k : N) (ps : list prop) : list (target * decl) :=
+    if N.eqb k 2 then [] else [(t, if N.eqb k 1 then DOneof ps else DObject false ps)].
+  Definition tprops (fs : list tfield) : list prop := map (fun x => abs_prop (of_tfield x)) fs.
+  Fixpoint tree_decls (t : target) (tf : tfield) : list (target * decl) :=
+    match tf with
+    | TF _ k _ _ _ =>
+        match k with
+        | TKInline ik _ fs _ => inl_decl t ik (tprops fs) ++ flat_map (tree_decls t) fs
+        | _ => []
+        end
+    end.
   Definition inline_decls (t : target) (fs : list ofield) : list (target * decl) :=
     flat_map (fun f => match f_inline f with
       | Some il =>
-          if N.eqb (il_kind il) 2 then []
-          else let ps := map (fun sf => abs_prop (of_sfield sf)) (il_fields il) in
-               [(t, if N.eqb (il_kind il) 1 then DOneof ps else DObject false ps)]
+          match il_tree il with
+          | [] => inl_decl t (il_kind il) (map (fun sf => abs_prop (of_sfield sf)) (il_fields il))
+          | tfs => inl_decl t (il_kind il) (tprops tfs) ++ flat_map (tree_decls t) tfs
+          end
       | None => []
       end) fs.
 
